@@ -60,6 +60,10 @@ func c07Graphs(thorough bool) []c07Graph {
 		c07Graph{desc: "page-is-the-default-layout", files: map[string]string{"layouts/base.vuego": c07Layout("base", "", "")}, page: "layouts/base.vuego", want: []string{"base", "base"}},
 		c07Graph{desc: "page-is-a-named-layout", files: map[string]string{"layouts/post.vuego": c07Layout("post", "base", ""), "layouts/base.vuego": c07Layout("base", "", "")}, page: "layouts/post.vuego", want: []string{"base", "post"}},
 		c07Graph{desc: "page-is-a-layout-without-layout-key", files: map[string]string{"layouts/post.vuego": c07Layout("post", "", ""), "layouts/base.vuego": c07Layout("base", "", "")}, page: "layouts/post.vuego", want: []string{"base", "post"}},
+		// a file that names ITSELF (relative resolution comes first) does not end - also when layouts/ holds a file of that name
+		c07Graph{desc: "self-named-page-with-layouts-twin", files: map[string]string{"blog.vuego": c07Page("blog"), "layouts/blog.vuego": c07Layout("twin", "", "")}, page: "blog.vuego", wantErr: true},
+		c07Graph{desc: "self-named-page-in-directory", files: map[string]string{"pages/post.vuego": c07Page("post.vuego"), "layouts/post.vuego": c07Layout("twin", "", "")}, page: "pages/post.vuego", wantErr: true},
+		c07Graph{desc: "self-named-layout-mid-chain", files: map[string]string{"pages/a.vuego": c07Page("wrap"), "pages/wrap.vuego": c07Layout("wrap", "wrap", ""), "layouts/wrap.vuego": c07Layout("twin", "", "")}, page: "pages/a.vuego", wantErr: true},
 		c07Graph{desc: "self-cycle", files: map[string]string{"p.vuego": c07Page("a"), "layouts/a.vuego": c07Layout("a", "a", "")}, wantErr: true},
 		c07Graph{desc: "cycle-2", files: map[string]string{"p.vuego": c07Page("a"), "layouts/a.vuego": c07Layout("a", "b", ""), "layouts/b.vuego": c07Layout("b", "a", "")}, wantErr: true},
 		c07Graph{desc: "cycle-3", files: map[string]string{"p.vuego": c07Page("a"), "layouts/a.vuego": c07Layout("a", "b", ""), "layouts/b.vuego": c07Layout("b", "c", ""), "layouts/c.vuego": c07Layout("c", "a", "")}, wantErr: true},
